@@ -90,7 +90,7 @@ fn judge(r: &mut UnitResult, cs: &[Case], thorough: bool) {
         let comparable = !cs[ci].id.contains("race-winner");
         if comparable && f[2] != want {
             r.violate(
-                format!("transparency|{}|{}", cs[ci].id, f[1].split("+shuffle").next().unwrap_or(f[1])),
+                format!("transparency|{}|{}|={}", cs[ci].id, f[1].split("+shuffle").next().unwrap_or(f[1]), hash_hex(f[2])),
                 format!("{} under host policy {}: {} — with the synchronous stand-in: {}", cs[ci].id, f[1], truncate(f[2], 220), truncate(want, 220)),
                 json!({"id": cs[ci].id, "policy": f[1]}),
             );
